@@ -289,7 +289,7 @@ func genLayers(r *hlib.Rng, nl int, p []byte, maxPer int, allowEmptyKey bool) []
 			if r.Chance(3, 10) {
 				l[string(k)] = []byte{} // tombstone
 			} else {
-				l[string(k)] = []byte(fmt.Sprintf("v%d:%x", li, k))
+				l[string(k)] = append([]byte{byte('1' + li)}, k...) // unique per (layer, key)
 			}
 		}
 		layers[li] = l
@@ -381,7 +381,7 @@ func main() {
 	}
 
 	r := hlib.NewRng(opts.Seed)
-	nsets := 36
+	nsets := 24
 	maxPer := 6
 	if opts.Thorough() {
 		nsets = 700
@@ -417,7 +417,7 @@ func main() {
 		e.runCount("count-"+tag, sh.merged, backend, layers, randKey(r, 0, 2))
 		// single List calls with arbitrary keys / counts / direction words
 		keys := allKeys(layers)
-		for i := 0; i < 14; i++ {
+		for i := 0; i < 9; i++ {
 			var key []byte
 			switch r.Intn(4) {
 			case 0:
@@ -454,7 +454,7 @@ func main() {
 		}
 		put := func(k []byte) {
 			li := r.Intn(nl)
-			layers[li][string(k)] = []byte(fmt.Sprintf("v%d:%x", li, k))
+			layers[li][string(k)] = append([]byte{byte('1' + li)}, k...)
 		}
 		put(append(append([]byte{}, p0...), 'x'))
 		put(p0)
